@@ -208,7 +208,7 @@ func (w *fw) rel(typ, target string, external bool) string {
 	if external {
 		mode = ` TargetMode="External"`
 	}
-	if !external && !strings.HasPrefix(target, "../") && (typ == "image" || typ == "header" || typ == "footer" || typ == "theme" || typ == "oleObject" || typ == "comments") && w.r.Chance(1, 6) {
+	if !external && !strings.HasPrefix(target, "../") && (typ == "image" || typ == "header" || typ == "footer" || typ == "theme" || typ == "oleObject" || typ == "comments" || typ == "styles" || typ == "numbering" || typ == "footnotes" || typ == "settings") && w.r.Chance(1, 6) {
 		// the target spelt as an absolute part name: legal in OPC, written by several producers
 		target = "/word/" + target
 		w.feature("absolute-relationship-target:" + typ)
